@@ -6,6 +6,15 @@ PROFILE = {'p_write': 0.3, 'p_plain': 0.5, 'handle_writes': True, 'writes': {'in
 
 
 def main(tier, seed):
+    # which database operation each handle method becomes is regenerated from measurement.py / database.py and proved
+    # equal to the model's forwarding table (proofs/HandleGenP.v)
+    refused = []
+
+    def regen():
+        rc, out = sh([PY, str(VERIF / "harness" / "py2coq_handle.py"), str(REPO / "tinyflux"), str(COQ / "gen" / "HandleGen.v")], timeout=60)
+        refused.extend(l for l in out.splitlines() if l.startswith("REFUSED"))
     return dbtie.db_check("C10", tier, seed, PROFILE, 400, 6000, "Prop_C10",
-                          "user callables and re are an environment the theorems quantify over; the tie instantiates them with the twin table")
+                          "user callables and re are an environment the theorems quantify over; the tie instantiates them with the twin table",
+                          pre=regen, extra_cov={"translator": {"source": "tinyflux/measurement.py (forwarding methods) + signatures of tinyflux/database.py -> coq/gen/HandleGen.v (regenerated on this run)",
+                                                               "refused": refused, "equivalence_theorem": "gen_forward_eq"}})
 
